@@ -213,18 +213,20 @@ def census(tree: ast.Module) -> dict:
 
 # ---------------------------------------------------------------------------------------------- rename detection
 def _mask(tokens, stable: set, mapping: dict) -> set:
-    """Tokens mention names; private names that are not stable are masked so that simultaneous renames do not hide each other."""
+    """Tokens mention names; private names that are not stable are masked so that simultaneous renames do not hide each other.
+    Every contextual token `<method>:<use>` also contributes its context-free form `*:<use>` (a helper may have been inlined)."""
     out = set()
+
+    def atom(a):
+        q = mapping.get(a, a)
+        return "_?" if _is_private(q) and q not in stable else q
+
     for t in tokens:
-        head, _, rest = t.partition(":")
-        parts = rest.split(".") if head in ("calls",) else rest.split(":")
-        new = []
-        for p in (rest.replace(":", ".").split(".") if rest else []):
-            q = mapping.get(p, p)
-            if _is_private(q) and q not in stable:
-                q = "_?"
-            new.append(q)
-        out.add(head + ":" + ".".join(new))
+        pieces = t.split(":")
+        masked = [".".join(atom(a) for a in p.split(".")) for p in pieces]
+        out.add(":".join(masked))
+        if len(masked) >= 2 and masked[0] not in ("calls", "attr", "raises", "params", "def", "use", "classdef", "calledby", "ref"):
+            out.add("*:" + ":".join(masked[1:]))
     return out
 
 
@@ -843,6 +845,10 @@ class _Normalise(ast.NodeTransformer):
             if comp is not None:
                 stmts = stmts[:i] + [comp] + stmts[i + 2:]
                 continue
+            upd = self._update_comp(st)
+            if upd is not None:
+                stmts = stmts[:i] + [upd] + stmts[i + 1:]
+                continue
             folded = self._fold_temp(st, nxt, stmts[i + 2:])
             if folded is not None:
                 stmts = stmts[:i] + [folded] + stmts[i + 2:]
@@ -850,6 +856,36 @@ class _Normalise(ast.NodeTransformer):
             out.append(st)
             i += 1
         return out
+
+    @staticmethod
+    def _update_comp(st):
+        """`D.update({K: V for t in IT})`  ->  `for t in IT: D[K] = V`"""
+        if not (isinstance(st, ast.Expr) and isinstance(st.value, ast.Call)):
+            return None
+        c = st.value
+        if not (isinstance(c.func, ast.Attribute) and c.func.attr == "update" and len(c.args) == 1 and not c.keywords and isinstance(c.args[0], ast.DictComp)):
+            return None
+        dc = c.args[0]
+        if len(dc.generators) != 1 or dc.generators[0].is_async:
+            return None
+        g = dc.generators[0]
+        d = _dotted(c.func.value)
+        if d is None or any(_dotted(x) == d for x in ast.walk(dc) if isinstance(x, (ast.Name, ast.Attribute))):
+            return None
+        asg = ast.Assign(targets=[ast.Subscript(value=copy.deepcopy(c.func.value), slice=dc.key, ctx=ast.Store())], value=dc.value)
+        body = [asg]
+        for cond in reversed(g.ifs):
+            body = [ast.If(test=cond, body=body, orelse=[])]
+        loop = ast.For(target=g.target, iter=g.iter, body=body, orelse=[])
+        for t in ast.walk(g.target):
+            if isinstance(t, (ast.Name, ast.Tuple, ast.List)):
+                t.ctx = ast.Store()
+        ast.copy_location(loop, st)
+        for x in ast.walk(loop):
+            if not hasattr(x, "lineno"):
+                ast.copy_location(x, st)
+        ast.fix_missing_locations(loop)
+        return loop
 
     @staticmethod
     def _fold_temp(st, nxt, rest):
@@ -912,7 +948,8 @@ class _Normalise(ast.NodeTransformer):
             tgt, val = st.target, st.value
         else:
             return None
-        if not (isinstance(tgt, ast.Name) and isinstance(val, ast.List) and not val.elts):
+        tname = tgt.id if isinstance(tgt, ast.Name) else _dotted(tgt)
+        if not (tname and isinstance(tgt, (ast.Name, ast.Attribute)) and isinstance(val, ast.List) and not val.elts):
             return None
         body = nxt.body
         ifs = []
@@ -922,16 +959,18 @@ class _Normalise(ast.NodeTransformer):
         if len(body) != 1 or not isinstance(body[0], ast.Expr):
             return None
         c = body[0].value
-        if not (isinstance(c, ast.Call) and isinstance(c.func, ast.Attribute) and c.func.attr == "append" and isinstance(c.func.value, ast.Name) and c.func.value.id == tgt.id and len(c.args) == 1 and not c.keywords):
+        if not (isinstance(c, ast.Call) and isinstance(c.func, ast.Attribute) and c.func.attr == "append" and _dotted(c.func.value) == tname and len(c.args) == 1 and not c.keywords):
             return None
         # the element / conditions must not mention the list being built
         for e in [c.args[0], nxt.iter] + ifs:
-            if any(isinstance(x, ast.Name) and x.id == tgt.id for x in ast.walk(e)):
+            if any(_dotted(x) == tname for x in ast.walk(e) if isinstance(x, (ast.Name, ast.Attribute))):
                 return None
         if any(isinstance(x, (ast.Await, ast.Yield, ast.YieldFrom)) for e in [c.args[0]] + ifs for x in ast.walk(e)):
             return None
         comp = ast.ListComp(elt=c.args[0], generators=[ast.comprehension(target=nxt.target, iter=nxt.iter, ifs=ifs, is_async=0)])
-        new = ast.Assign(targets=[ast.Name(id=tgt.id, ctx=ast.Store())], value=comp)
+        new_t = copy.deepcopy(tgt)
+        new_t.ctx = ast.Store()
+        new = ast.Assign(targets=[new_t], value=comp)
         ast.copy_location(new, nxt)
         ast.copy_location(comp, nxt)
         ast.fix_missing_locations(new)
@@ -1054,6 +1093,57 @@ class _MatchToIf(ast.NodeTransformer):
         return out
 
 
+class _OrDefault(ast.NodeTransformer):
+    """`return C(...) or D`  ->  `t = C(...)`, `if t: return t`, `return D`;  `x = C(...) or D`  ->  `x = C(...)`, `if not x: x = D`
+    (exactly what `or` means; the if-form is the one the rules read)."""
+
+    def __init__(self):
+        self.n = 0
+
+    def _blocks(self, node):
+        for field in ("body", "orelse", "finalbody"):
+            b = getattr(node, field, None)
+            if isinstance(b, list) and b and isinstance(b[0], ast.stmt):
+                setattr(node, field, self._block(b))
+
+    def generic_visit(self, node):
+        super().generic_visit(node)
+        if isinstance(node, (ast.stmt, ast.Module, ast.ExceptHandler)):
+            self._blocks(node)
+        return node
+
+    def _block(self, stmts):
+        out = []
+        for st in stmts:
+            v = getattr(st, "value", None)
+            if isinstance(st, (ast.Return, ast.Assign)) and isinstance(v, ast.BoolOp) and isinstance(v.op, ast.Or) and len(v.values) == 2 and isinstance(v.values[0], ast.Call) and not isinstance(v.values[1], ast.Await):
+                first, second = v.values
+                if isinstance(st, ast.Return):
+                    self.n += 1
+                    t = f"_or{self.n}"
+                    a = ast.Assign(targets=[ast.Name(id=t, ctx=ast.Store())], value=first)
+                    i = ast.If(test=ast.Name(id=t, ctx=ast.Load()), body=[ast.Return(value=ast.Name(id=t, ctx=ast.Load()))], orelse=[])
+                    r = ast.Return(value=second)
+                    new = [a, i, r]
+                elif len(st.targets) == 1 and isinstance(st.targets[0], ast.Name):
+                    x = st.targets[0].id
+                    a = ast.Assign(targets=[ast.Name(id=x, ctx=ast.Store())], value=first)
+                    i = ast.If(test=ast.UnaryOp(op=ast.Not(), operand=ast.Name(id=x, ctx=ast.Load())), body=[ast.Assign(targets=[ast.Name(id=x, ctx=ast.Store())], value=second)], orelse=[])
+                    new = [a, i]
+                else:
+                    out.append(st)
+                    continue
+                for nst in new:
+                    for y in ast.walk(nst):
+                        if not hasattr(y, "lineno"):
+                            ast.copy_location(y, st)
+                    ast.fix_missing_locations(nst)
+                out.extend(new)
+            else:
+                out.append(st)
+        return out
+
+
 class _AliasFold(ast.NodeTransformer):
     """`x = self.a.b` (single assignment of local x, the chain is not stored to in the function): later loads of x read the chain.
     Analysis vocabulary only: rules name state by its attribute path, a local alias is transparent to them."""
@@ -1166,6 +1256,7 @@ def canonicalise(tree: ast.Module, modname: str):
                 notes.append(f"inlined new helper {k}")
             tree = _drop_unreferenced(tree, {k: v[0] for k, v in helpers.items() if k in set(inl.done)})
     tree = _MatchToIf().visit(tree)
+    tree = _OrDefault().visit(tree)
     tree = _AliasFold().visit(tree)
     tree = _Normalise().visit(tree)
     ast.fix_missing_locations(tree)
